@@ -448,7 +448,7 @@ def main(pid, tier, seed, replay=None):
         scs = []
         from mtfx import tripwires  # noqa: F401  (names only)
         protos = ["getattribute", "getattr", "class_prop", "descriptor", "lazy_property", "list_sub", "dict_sub", "set_sub",
-                  "tuple_sub", "defaultdict_sub", "getattr_raises", "hash_eq", "bool", "repr", "meta_class", "meta_instance"]
+                  "tuple_sub", "defaultdict_sub", "getattr_raises", "hash_eq", "bool", "repr", "meta_class", "meta_instance", "str_sub_key"]
         for kind in KINDS:
             for role in ROLES:
                 if role in ("ret", "yield", "global_same_name", "caller_local") and kind != "module_function":
